@@ -226,7 +226,7 @@ _DEPS = {
     "C04": ["C01", "C02", "C07", "C12"],
     "C05": ["C01", "C02"],
     "C07": ["C02", "C06", "C08"],
-    "C09": [],
+    "C09": ["C10"],   # a snapshot that carries an uncommitted configuration makes it "committed" at the next restart
     "C10": ["C01"],
     "C11": ["C06", "C12"],
     "C14": ["C01", "C02", "C04", "C08"],
@@ -239,7 +239,9 @@ _OWNS = {"C14": ["C12", "C13"]}
 for _p, _d in _DEPS.items():
     PROPS[_p]["deps"] = _d
     if _p not in ("C06", "C11"):
-        PROPS[_p]["engines"] = with_ties(PROPS[_p]["engines"], ([E3_IS] if _p in ("C07", "C10", "C14", "C15") else []) + ([E3_LC] if _p in ("C01", "C03", "C09", "C14", "C15") else []))
+        # every section that changes term, vote, log, commit index or configuration is part of what a cluster-level
+        # statement rests on: the snapshot handler and the lifecycle sections too (round 4 of the seeded changes)
+        PROPS[_p]["engines"] = with_ties(PROPS[_p]["engines"], [E3_IS, E3_LC])
         PROPS[_p]["explanation"] += TIE_NOTE
 for _p, _o in _OWNS.items():
     PROPS[_p]["owns"] = _o
